@@ -49,12 +49,27 @@ type c06Guard struct {
 	opened  []string
 	closed  map[int]int
 	badArgs []string
+	misuse  []string // readers / writers used after they were closed
 }
 
 type c06Reader struct {
 	ociregistry.BlobReader
 	g  *c06Guard
 	id int
+}
+
+// Read refuses a reader that has been closed (ocimem's readers keep working, which would hide the misuse).
+func (r c06Reader) Read(p []byte) (int, error) {
+	r.g.mu.Lock()
+	closed := r.g.closed[r.id] > 0
+	if closed {
+		r.g.misuse = append(r.g.misuse, r.g.opened[r.id]+": Read after Close")
+	}
+	r.g.mu.Unlock()
+	if closed {
+		return 0, fmt.Errorf("read on closed reader")
+	}
+	return r.BlobReader.Read(p)
 }
 
 func (r c06Reader) Close() error {
@@ -74,6 +89,18 @@ func (w c06Writer) done() {
 	w.g.mu.Lock()
 	w.g.closed[w.id]++
 	w.g.mu.Unlock()
+}
+func (w c06Writer) Write(p []byte) (int, error) {
+	w.g.mu.Lock()
+	closed := w.g.closed[w.id] > 0
+	if closed {
+		w.g.misuse = append(w.g.misuse, w.g.opened[w.id]+": Write after Close/Cancel/Commit")
+	}
+	w.g.mu.Unlock()
+	if closed {
+		return 0, fmt.Errorf("write on closed writer")
+	}
+	return w.BlobWriter.Write(p)
 }
 func (w c06Writer) Close() error  { w.done(); return w.BlobWriter.Close() }
 func (w c06Writer) Cancel() error { w.done(); return w.BlobWriter.Cancel() }
@@ -315,6 +342,9 @@ func c06Run(r *vcore.Run, q c06Req) {
 	body, _ := io.ReadAll(res.Body)
 	viol := func(what, exp, obs string) {
 		r.Violate("req", fp+"/"+what, q, exp, fmt.Sprintf("%s -> %d %v body=%q", obs, res.StatusCode, res.Header, truncate(string(body), 200)))
+	}
+	if len(g.misuse) > 0 {
+		viol("backend-object-used-after-close", "readers and writers are not used once closed", strings.Join(g.misuse, "; "))
 	}
 	if len(g.badArgs) > 0 {
 		viol("backend-called-with-invalid-argument", "only syntactically valid repository, tag and digest arguments", strings.Join(g.badArgs, "; "))
